@@ -46,9 +46,9 @@ def step (m : Migration) : Stmt → M Migration
     let m ← m.removeTable t
     pure (m.using_ t)
   | .addColumn t c pos => do
-    -- Enter(AlterTableStmt) runs before the TableName child moves the cursor: the position lands on the cursor's table (F6)
+    -- Enter(AlterTableStmt) runs before the TableName child moves the cursor; the position is set on the named table
     let m ← (match pos.toPos? with
-      | some p => m.setColumnPosition "" p
+      | some p => m.setColumnPosition t p
       | none => pure m : M Migration)
     let m := m.using_ t
     m.addColumn "" c.toColumn
@@ -63,12 +63,11 @@ def step (m : Migration) : Stmt → M Migration
     let m ← m.renameColumn t o n
     pure (m.using_ t)
   | .addPrimaryKey t cols => do
-    -- `alter.Table.Text()` is empty: the key goes to the cursor's table (F6)
-    let m ← m.addIndex "" (pkIndex cols)
+    let m ← m.addIndex t (pkIndex cols)
     pure (m.using_ t)
   | .dropPrimaryKey t => pure (m.using_ t)          -- AlterTableDropPrimaryKey: ignored
   | .addFk t name col rt rc => do
-    let m ← m.addForeignKey "" { name := name, action := .add, table := "", column := col, refTable := rt, refColumn := rc }
+    let m ← m.addForeignKey t { name := name, action := .add, table := t, column := col, refTable := rt, refColumn := rc }
     let m := m.using_ t
     pure (m.using_ rt)                               -- the REFERENCES table name is visited last
   | .dropFk _ _ => .error "nil dereference: AlterTableDropForeignKey reads Specs[i].Constraint.Name"
